@@ -75,4 +75,4 @@ package filesystem
 //@ func (*Provider).Start
 //@   props C07
 //@   writeframe
-//@   assert at call loadInitialRuleSet#1: gostart.n == old(gostart.n)
+//@   assert at call loadInitialRuleSet#1@4800b413.1: gostart.n == old(gostart.n)
